@@ -116,6 +116,15 @@ pub fn replay_type(case: &Value) -> (crate::erralg::Outcome, String) {
 /// field type using exactly the given declared parameters (several spellings per use set)
 fn field_type(uses: &[String], salt: usize) -> String {
     let has = |p: &str| uses.iter().any(|u| u == p);
+    if has("V") {
+        let rest: Vec<String> = uses.iter().filter(|u| *u != "V").cloned().collect();
+        return format!("({}, Vec<V>)", field_type_tu(&rest, salt));
+    }
+    field_type_tu(uses, salt)
+}
+
+fn field_type_tu(uses: &[String], salt: usize) -> String {
+    let has = |p: &str| uses.iter().any(|u| u == p);
     match (has("T"), has("U")) {
         // a parameter named only as the self type of a qualified path is not used for the purpose of bounds
         (false, false) => ["u8", "Vec<String>", "m::T", "::U", "Map<T = u8>", "<T as Tr>::Out", "Option<<U as Tr>::Out>"][salt % 7].to_string(),
